@@ -14,7 +14,8 @@ first build and plan/source edits before the build that is interrupted) and sche
 * a crash after EVERY commit index of the reference (startup, dispatch, completion, cleanup
   transactions alike) and before every action and the exit of every running step; one case in five
   interrupts the rebuild phase of a WATCHING director instead (edits arrive as file events); one
-  kill point in seven kills the restart as well, after 1-14 of its commits, before the final restart;
+  kill point in five kills the restart as well, after 1-26 of its commits, before the final restart;
+  in half of the projects with a sub-plan the sub-plan is deferred once while its own steps run;
 * the restart with `STEPUP_DEBUG=1` (`_check_consistency` raises), same invariants after every
   commit, plus: every step that was RUNNING at the kill and is SUCCEEDED in the end was executed
   again, and none of its outputs is BUILT at any commit before that execution completes;
@@ -93,6 +94,8 @@ def make_spec(seed, index: int, tier: str) -> dict:
         "step_points": True,
         # the interrupted build is a rebuild phase of a watching director (edits arrive as file events)
         "watch": r.random() < 0.2,
+        # the sub-plan (when the model has one) is deferred once while its steps run (simcases.explicit_project)
+        "defer_sub": r.random() < 0.5,
     }
     if spec["watch"]:
         spec["nmut"] = max(1, spec["nmut"])
@@ -225,8 +228,8 @@ class _Case:
         self.model0, self.model1, self.mutations = build_models(spec)
         import simcases
 
-        self.project0 = simcases.explicit_project(self.model0)
-        self.project1 = simcases.explicit_project(self.model1)
+        self.project0 = simcases.explicit_project(self.model0, spec.get("defer_sub", False))
+        self.project1 = simcases.explicit_project(self.model1, spec.get("defer_sub", False))
         self.edits = projgen._edits_between(self.project0, self.project1) if spec["nmut"] else []
         self.resources = self.model1.resources or self.model0.resources
         self.findings: list[dict] = []
@@ -396,12 +399,12 @@ class _Case:
                                  f"the build to be interrupted at {point} ended with status {crashed.status}",
                                  point=point, error=(crashed.error or "")[-1500:])
                 return
-            # one kill point in seven: the restart itself is killed too, after a few commits
+            # one kill point in five: the restart itself is killed too, after 1-26 of its commits
             h = int(hashlib.sha1(repr((self.spec["id"], point)).encode()).hexdigest()[:6], 16)
-            if h % 7 == 0:
+            if h % 5 == 0:
                 second = sim.build(njob=self.spec["njob"], resources=self.resources, strict=True,
                                    schedule=_schedule(self.spec["restart_sched"], h % 1000),
-                                   crash_after_commit=1 + (h // 7) % 14)
+                                   crash_after_commit=1 + (h // 5) % 26)
                 self.count("second-kill:" + second.status)
                 if second.status in ("error", "hang"):
                     self.finding("restart-" + second.status, f"restart after a kill at {point} (to be killed again) "
